@@ -58,6 +58,7 @@ pub fn get_rt(id: &str, thorough: bool) -> Option<PropDef> {
         "C02" => m::c02,
         "C03" => m::c03_replies,
         "C06" => m::c06_rt,
+        "C07" => m3::c07_rt,
         "C13" => m2::c13,
         _ => return None,
     };
@@ -74,6 +75,7 @@ pub fn get_rt(id: &str, thorough: bool) -> Option<PropDef> {
             "C02" => "C02",
             "C03" => "C03",
             "C06" => "C06",
+            "C07" => "C07",
             _ => "C13",
         },
         profiles,
